@@ -233,6 +233,10 @@ def toT (Γ : List Ty) : KExpr → TExpr
   | .ite c t e => .ite (toT Γ c) (toT Γ t) (toT Γ e)
   | .cast t a => .cast (DT.ofTy t) (toT Γ a)
   | .concat a b => .concat (toT Γ a) (toT Γ b)
+  | .like a _ => .like (toT Γ a) (.leaf .string)
+  | .substring s b c => .substring (toT Γ s) (toT Γ b) (toT Γ c)
+  | .replace a _ _ => .replace (toT Γ a) (.leaf .string) (.leaf .string)
+  | .repeat_ s k => .repeat_ (toT Γ s) (toT Γ k)
 
 /-! ### INSERT and the stored table -/
 
